@@ -57,9 +57,35 @@ class SymArray(_np.ndarray):
     def __setitem__(self, idx, val):
         return super().__setitem__(self._norm(idx), val)
 
+    def astype(self, dtype, *a, **kw):
+        # a float cast of symbolic reals is the identity of the exact-real model (rounding is outside the claim)
+        try:
+            kind = _np.dtype(dtype).kind
+        except TypeError:
+            kind = None
+        if kind == "f" and self.dtype == object and has_sym(self):
+            out = _np.empty(self.shape, dtype=object)
+            for idx in _np.ndindex(self.shape):
+                v = _np.ndarray.__getitem__(self, idx)
+                if isinstance(v, SymInt):
+                    v = SymReal(z3.ToReal(v.t))
+                elif isinstance(v, SymBool):
+                    v = SymReal(z3.If(v.t, z3.RealVal(1), z3.RealVal(0)))
+                elif not is_sym(v):
+                    v = float(v)
+                out[idx] = v
+            return out.view(SymArray)
+        return super().astype(dtype, *a, **kw)
+
     def argsort(self, axis=-1, kind=None, order=None, **kw):
         if self.ndim != 1:
-            raise NotImplementedError("SymArray.argsort: only 1-D")
+            if axis is None:
+                return self.ravel().view(SymArray).argsort()
+            moved = _np.moveaxis(_np.asarray(self), axis, -1)
+            out = _np.empty(moved.shape, dtype=_np.int64)
+            for lead in _np.ndindex(moved.shape[:-1]):
+                out[lead] = moved[lead].view(SymArray).argsort()
+            return _np.moveaxis(out, -1, axis)
         vals = list(self)
         idx = list(range(len(vals)))
         # stable insertion sort; comparisons fork through SymBool.__bool__
@@ -318,8 +344,25 @@ class NpProxy:
         self.object_ints = False  # object arrays hold SymInt (C13): issubdtype shim
         self.float_arrays_as_objects = True
 
+    # array-producing functions whose object-dtype results are handed on as SymArray, so that the methods the
+    # code calls on them (astype, argsort, argmax, indexing with symbolic integers) are the symbolic ones
+    _VIEWED = frozenset("array asarray asanyarray ascontiguousarray concatenate stack column_stack hstack vstack "
+                        "append insert delete where cumsum take_along_axis take repeat tile flip roll copy "
+                        "atleast_1d atleast_2d reshape squeeze expand_dims transpose diff outer dot matmul".split())
+
     def __getattr__(self, name):
-        return getattr(_np, name)
+        f = getattr(_np, name)
+        if name not in self._VIEWED:
+            return f
+
+        def viewed(*a, **kw):
+            r = f(*a, **kw)
+            if type(r) is _np.ndarray and r.dtype == object:
+                return r.view(SymArray)
+            return r
+        viewed.__name__ = name
+        self.__dict__[name] = viewed
+        return viewed
 
     # -- constructors ------------------------------------------------------------
     def _obj(self, a):
